@@ -18,6 +18,19 @@ class HarnessError(Exception):
     """Something is wrong with the machinery (exit 2) -- not a verdict."""
 
 
+class Saturated(Exception):
+    """A shard has recorded so many violations that going on is pointless (and, on a badly broken tree, dangerous:
+    corrupted shared objects can grow without bound).  The shard's statistics so far are the shard's result."""
+
+    def __init__(self, stats):
+        Exception.__init__(self, 'shard saturated with violations')
+        self.stats = stats
+
+
+SATURATION = 3000
+WORKER_MEMORY = 6 << 30
+
+
 class Stats(object):
     """What one shard (or the whole run) covered."""
 
@@ -38,12 +51,18 @@ class Stats(object):
 
     def violation(self, kind, case, detail, features=None):
         self.nviol += 1
+        if self.nviol == SATURATION:
+            self.inc('shards_cut_short_after_%d_violations' % SATURATION)
+            self._saturated = True
         self.inc('violations:' + kind)
         vkey = (kind, json.dumps(features or {}, sort_keys=True, default=repr))
         if len(self.viol) < MAX_VIOL_PER_SHARD or vkey not in self._vkeys:
             self._vkeys.add(vkey)
             self.viol.append({'kind': kind, 'case': case, 'detail': detail,
                               'features': features or {}})
+        if getattr(self, '_saturated', False):
+            self._saturated = False
+            raise Saturated(self)
 
     def sample(self, obj, cap=4):
         if len(self.samples) < cap:
@@ -62,12 +81,23 @@ class Stats(object):
         self.notes.extend(other.notes)
 
 
+def _limit_memory():
+    try:
+        import resource
+        soft, hard = resource.getrlimit(resource.RLIMIT_AS)
+        resource.setrlimit(resource.RLIMIT_AS, (WORKER_MEMORY, hard))
+    except Exception:  # noqa: best effort
+        pass
+
+
 def _run_shard(task):
     modname, fname, tier, shard = task
     try:
         mod = importlib.import_module(modname)
         st = getattr(mod, fname)(tier, shard)
         return ('ok', shard, st)
+    except Saturated as e:
+        return ('ok', shard, e.stats)
     except BaseException:
         return ('err', shard, traceback.format_exc())
 
@@ -95,10 +125,16 @@ def run_shards(modname, fname, tier, shards, seed=0):
         for t in tasks:
             results[repr(t[3])] = _run_shard(t)
     else:
+        import concurrent.futures as cf
         ctx = multiprocessing.get_context('fork')
-        with ctx.Pool(nw) as pool:
-            for res in pool.imap_unordered(_run_shard, tasks, chunksize=1):
-                results[repr(res[1])] = res
+        try:
+            with cf.ProcessPoolExecutor(nw, mp_context=ctx, initializer=_limit_memory) as pool:
+                futs = [pool.submit(_run_shard, t) for t in tasks]
+                for fu in cf.as_completed(futs):
+                    res = fu.result()
+                    results[repr(res[1])] = res
+        except cf.process.BrokenProcessPool:
+            raise HarnessError('a worker process of %s.%s died (killed, e.g. out of memory)' % (modname, fname))
     total = Stats()
     for sh in shards:
         status, _, payload = results[repr(sh)]
